@@ -625,6 +625,7 @@ struct Child {
     stdin: std::process::ChildStdin,
     lines: mpsc::Receiver<String>,
     err: std::sync::Arc<Mutex<String>>,
+    err_thread: Option<std::thread::JoinHandle<()>>,
 }
 
 fn spawn_worker(bin: &str) -> Child {
@@ -650,7 +651,7 @@ fn spawn_worker(bin: &str) -> Child {
     });
     let err = std::sync::Arc::new(Mutex::new(String::new()));
     let e2 = err.clone();
-    std::thread::spawn(move || {
+    let err_thread = std::thread::spawn(move || {
         let mut buf = [0u8; 4096];
         loop {
             match stderr.read(&mut buf) {
@@ -664,7 +665,7 @@ fn spawn_worker(bin: &str) -> Child {
             }
         }
     });
-    Child { proc, stdin, lines: rx, err }
+    Child { proc, stdin, lines: rx, err, err_thread: Some(err_thread) }
 }
 
 /// Run one input in `child`; on child death / stall returns a synthetic failure and the child is replaced.
@@ -686,7 +687,11 @@ fn run_one(child: &mut Child, bin: &str, input: &[u8], timeout: Duration) -> (Ou
         }
         Err(mpsc::RecvTimeoutError::Disconnected) => {
             let status = child.proc.wait().map(|s| format!("{s}")).unwrap_or_else(|_| "?".into());
-            std::thread::sleep(Duration::from_millis(20));
+            // the child is dead, so its stderr reaches EOF: wait for the reader to drain it (a fixed sleep lost the
+            // ALLOC-VIOLATION text under load and turned a known signature into an anonymous abort)
+            if let Some(h) = child.err_thread.take() {
+                let _ = h.join();
+            }
             let err = child.err.lock().unwrap().clone();
             let (sig, detail) = signature_from_stderr(&err, &status);
             *child = spawn_worker(bin);
@@ -720,7 +725,13 @@ pub fn run_inputs(inputs: &[Vec<u8>], bin: &str, threads: usize, timeout: Durati
                     if i >= inputs.len() {
                         break;
                     }
-                    let (o, infra) = run_one(&mut child, bin, &inputs[i], timeout);
+                    let (mut o, infra) = run_one(&mut child, bin, &inputs[i], timeout);
+                    // an anonymous process death must reproduce from the saved input alone (fresh worker); otherwise
+                    // the second, attributable outcome is the one that counts
+                    if o.fails.iter().any(|f| f.entry == "(process)" && f.sig.starts_with("abort:")) {
+                        let (o2, _) = run_one(&mut child, bin, &inputs[i], timeout);
+                        o = o2;
+                    }
                     if let Some(m) = infra {
                         local.infra.push(m);
                     }
